@@ -2085,6 +2085,9 @@ impl<R: Read> Vp8Decoder<R> {
 
         filter_level = filter_level.clamp(0, 63);
 
+        // every macroblock of a key frame is intra coded: the delta of reference frame 0
+        // applies to all of them, the mode delta only to B_PRED
+        filter_level += self.ref_delta[0];
         if macroblock.luma_mode == LumaMode::B {
             filter_level += self.mode_delta[0];
         }
